@@ -619,3 +619,63 @@ pub fn obs_frompgn(text: &str) -> (String, &'static str) {
     };
     (format!("r={c}"), c)
 }
+
+
+// ---------------------------------------------------------------------------------------------
+// rx: the three regexes of `Game::from_pgn`, read from the current /repo/src/games.rs, run by the real `regex` crate
+// ---------------------------------------------------------------------------------------------
+
+pub struct PgnPatterns {
+    pub splitter: regex::Regex,
+    pub moves: regex::Regex,
+    pub result: regex::Regex,
+}
+
+fn raw_literal_after(src: &str, marker: &str) -> Option<String> {
+    let i = src.find(marker)? + marker.len();
+    let rest = &src[i..];
+    let j = rest.find('"')?;
+    Some(rest[..j].to_string())
+}
+
+/// `None` when the source no longer has the expected shape (reported as `rx=nopattern`).
+pub fn pgn_patterns() -> Option<PgnPatterns> {
+    let src = std::fs::read_to_string("/repo/src/games.rs").ok()?;
+    let fp = src.find("pub fn from_pgn")?;
+    let body = &src[fp..];
+    let moves = raw_literal_after(body, "let moves_pattern = r\"")?;
+    // literal arguments of `Regex::new(r"...")` inside from_pgn, in source order: section splitter, result pattern
+    let mut lits = Vec::new();
+    let mut rest = body;
+    while let Some(i) = rest.find("Regex::new(r\"") {
+        let after = &rest[i + "Regex::new(r\"".len()..];
+        let j = after.find('"')?;
+        lits.push(after[..j].to_string());
+        rest = &after[j..];
+        if lits.len() >= 2 { break; }
+    }
+    if lits.len() < 2 { return None; }
+    Some(PgnPatterns {
+        splitter: regex::Regex::new(&lits[0]).ok()?,
+        moves: regex::Regex::new(&moves).ok()?,
+        result: regex::Regex::new(&lits[1]).ok()?,
+    })
+}
+
+pub fn obs_rx(pats: &Option<PgnPatterns>, text: &str) -> String {
+    let p = match pats { Some(p) => p, None => return "rx=nopattern".to_string() };
+    let r = catch(|| {
+        let sections: Vec<&str> = p.splitter.split(text).collect();
+        let sec = sections.get(1).copied();
+        match sec {
+            None => format!("sec=none nsec={}", sections.len()),
+            Some(ms) => {
+                let toks: Vec<String> = p.moves.captures_iter(ms).map(|c| c[0].to_string()).collect();
+                let res = p.result.captures_iter(ms).next().map(|c| c.get(0).unwrap().as_str().to_string());
+                format!("sec={} nsec={} moves={} n={} res={}", hex(ms), sections.len(), hex(&toks.join(" ")), toks.len(),
+                    res.map_or("none".to_string(), |r| hex(&r)))
+            }
+        }
+    });
+    r.unwrap_or_else(|| "panic".to_string())
+}
